@@ -98,7 +98,10 @@ def run(ctx):
                 if take > 0:
                     if u.startswith("assertz"): db.append(v)
                     elif u.startswith("asserta"): db.insert(0, v)
-                    elif v in db: db.remove(v)
+                    else:
+                        # retract/1 is re-entrant: every answer that is pulled removes one more matching clause
+                        for _ in range(take):
+                            if v in db: db.remove(v)
                 steps.append({"q": "findall(X, cnt(X), L).", "take": 2}); plan.append(("db", list(db)))
             else:
                 i = rng.randrange(len(POOL))
